@@ -461,7 +461,7 @@ def basic_cases(draw, n_min=6, n_max=24):
     directed = draw(st.booleans())
     g = draw(G.graphs(n_min, n_max, directed))
     n = g["n"]
-    w = draw(st.one_of(st.none(), G.node_weights(n)))
+    w = draw(st.one_of(st.none(), G.node_weights_wide(n)))
     W = draw(st.one_of(st.none(), G.link_attr(n, directed)))
     return {"g": g, "w": w, "W": W,
             "src": draw(st.lists(st.integers(0, 63), min_size=1, max_size=5)),
